@@ -73,6 +73,17 @@ func note(fn string, operand string, a *FE) {
 	envMu.Unlock()
 }
 
+var sampled = map[string]int{}
+
+// sampleOnce lets each monitor contribute a few of the calls it judged to
+// the evidence samples.
+func sampleOnce(k string) bool {
+	envMu.Lock()
+	defer envMu.Unlock()
+	sampled[k]++
+	return sampled[k] == 3
+}
+
 func count(k string) {
 	envMu.Lock()
 	cnt[k]++
@@ -144,6 +155,9 @@ func FieldHook(name string, pre, post, ret []interface{}) {
 			c := fieldCase(name, a, b)
 			c["observed"] = limbs(out)
 			violate("field", name, fmt.Sprintf("result %s != expected residue %s", modp(FVal(out)).Text(16), modp(want).Text(16)), c)
+		}
+		if (name == "Mul" || name == "SubAfterBasic") && sampleOnce("field/"+name+"/"+Phase) {
+			Rec.Sample(map[string]interface{}{"monitored_call": name, "a_limbs": limbs(a), "b_limbs": limbs(b), "out_limbs": limbs(out), "residue": modp(want).Text(16), "phase": Phase})
 		}
 	case "Neg", "Square", "Copy", "Recip", "PowTwo252m3":
 		a, out := fe(pre[1]), fe(post[0])
